@@ -26,14 +26,15 @@ open Replicat Replicat.Repo Replicat.CacheCmd Replicat.P18 List
 /-- the regenerated flag: the cached copy is compared with the expected digest before use -/
 theorem cacheVerified_holds : Gen.cacheVerified = true := by decide
 
-/-- the regenerated shape of the cache code the model mirrors: the cache is read and written only in
-`_download_snapshot_threadsafe`, which `_load_snapshots` calls only for paths of the backend listing; the store happens after the
-downloaded bytes were verified; `delete_snapshots` unlinks the entries of the snapshots it deletes; no other method knows the
-cache directory. -/
+/-- the regenerated shape of the cache code the model mirrors (read off the paths of a symbolic execution of `repository.py`, not
+off the names of its private methods): cache entries are read and written only by code that is entered from the loop of
+`_load_snapshots` over the backend listing of `SNAPSHOT_PREFIX` and nowhere else (`"snapshot-load"` — any other function with such
+an operation is listed by name), always at the listed path itself; what is written is the download of that path, after
+`hash(download) = expected` is known; `delete_snapshots` unlinks the entry of a snapshot after its backend deletion; and the cache
+directory is used for nothing but {remembering it in `__init__`, testing it against `None`, reading / storing / unlinking entries}. -/
 theorem cache_shape_holds :
-    Gen.cacheReadSites = ["_download_snapshot_threadsafe"] ∧ Gen.cacheStoreSites = ["_download_snapshot_threadsafe"] ∧
-    Gen.cacheDirSites = ["__init__", "_delete_cached", "_download_snapshot_threadsafe", "_get_cached", "_store_cached",
-      "delete_objects", "delete_snapshots"] ∧
+    Gen.cacheReadSites = ["snapshot-load"] ∧ Gen.cacheStoreSites = ["snapshot-load"] ∧
+    Gen.cacheDirUses = ["evict", "init", "read", "store", "test"] ∧
     Gen.cacheLoadOverListing = true ∧ Gen.cacheStoreAfterVerify = true ∧ Gen.deleteEvictsCache = true ∧
     Gen.cacheSectionOk = true := by decide
 
